@@ -44,6 +44,12 @@ def judgeRecovery (o : Outcome) : Bool :=
   | some (.err .compile) => !o.compiles
   | some (.err _) => false
 
+/-- Clause 3, bounded time: when every caller has *returned* (nobody died) and no lock file was
+there to begin with, no lock file is left — a lock left by a caller that returned would make every
+later load wait for the full timeout. -/
+def judgeNoOrphanLock (initialLock : Bool) (o : Outcome) : Bool :=
+  initialLock || !o.lockLeft || o.results.any Option.isNone
+
 def resultOf (pr : Proc) : Option Res :=
   match pr.pc with
   | .done r => some r
